@@ -53,12 +53,12 @@ CLAIMED = {
     ref="4/C09"),
  "C10": dict(
     technique="bounded-exhaustive schedule enumeration + random schedules with entry-invariant and transparency (metamorphic) oracles",
-    text="Every single interrupt placement (and all/sampled pairs) over the step boundaries of short generated programs, random schedules with keyboard and seeded timer interrupts on longer ones; entry checks (pending, priority strictly higher, highest pending, saved PC = next instruction, saved PSR, user SP saved) and equality of final registers, PSR, user memory and output with the uninterrupted run.",
+    text="Every single interrupt placement (and all/sampled pairs) over the step boundaries of short generated programs, random schedules with keyboard and seeded timer interrupts on longer ones; entry checks (pending, priority strictly higher, highest pending, saved PC = next instruction, saved PSR, user SP saved) one handler calls a TRAP itself (only RTI may lower the priority level, checked at every step), and equality of final registers, PSR, user memory and output with the uninterrupted run.",
     note="Interrupt sources are harness devices (level-held); handlers are generated save/restore routines; timing = step boundaries because devices are polled once per step.",
     ref="4/C10, 6"),
  "C11": dict(
     technique="property-based testing against a contract model of the six OS traps",
-    text="One trap per case with random registers, condition codes, keyboard queue and strings (empty, odd packed length, bytes x01-xFF, ending at xFDFF), real and virtual traps: exact display bytes, exactly one input byte consumed, all other registers, PSR and user memory unchanged, PC after the TRAP; HALT stops the machine.",
+    text="One trap per case with random registers, condition codes, keyboard queue and strings (empty, odd packed length, bytes x01-xFF, ending at xFDFF), real and virtual traps: exact display bytes, exactly one input byte consumed (also when the keyboard is empty at first: the routine must wait until a byte is typed), all other registers, PSR and user memory unchanged, PC after the TRAP; HALT stops the machine.",
     note="Contract written from the trap documentation (not from os.asm).",
     ref="4/C11"),
  "C12": dict(
@@ -88,12 +88,12 @@ CLAIMED = {
     ref="4/C16"),
  "C27": dict(
     technique="differential (lock-step) property-based testing of the frame stack against the reference machine's frame model",
-    text="Generated programs with nested JSR/JSRR, traps, top-level returns, interrupts and registered signatures (plus raw states) in lock step: depth (saturating) and, with debug frames, every frame's caller, callee, kind, frame pointer and argument values.",
+    text="Generated programs with nested JSR/JSRR, traps, top-level returns, interrupts and registered signatures (plus raw states, a third of them with a call gadget whose argument block reaches the top of memory) in lock step: depth (saturating) and, with debug frames, every frame's caller, callee, kind, frame pointer and argument values.",
     note="Frame model in harness/src/model/cpu.rs.",
     ref="4/C27"),
  "C28": dict(
     technique="differential (lock-step) property-based testing of the access observer against the reference machine's access sets",
-    text="Per step READ and WRITTEN sets on non-I/O addresses must equal the reference machine's; changed writes must be MODIFIED; MODIFIED is a subset of WRITTEN; untracked host accesses leave no trace.",
+    text="Per step READ and WRITTEN sets on non-I/O addresses must equal the reference machine's; changed writes must be MODIFIED; MODIFIED is a subset of WRITTEN; untracked host accesses leave no trace; half of the cases never empty the observer themselves (step_in's own clearing is what separates steps), and each case is also executed as one run_while call whose observer must hold the union of the steps' sets.",
     note="MODIFIED is checked as the property states it (changed => modified => written), because the simulator also counts a change of initialisation state as modification.",
     ref="4/C28"),
  "C29": dict(
@@ -103,12 +103,12 @@ CLAIMED = {
     ref="4/C29"),
  "C30": dict(
     technique="stateful property-based testing (random operation histories) with a fresh-simulator oracle",
-    text="Histories of runs, steps, writes, flag flips, breakpoint edits, device attach/remove and internal-register mappings followed by reset: state equals Simulator::new(same flags) word for word (values and masks), configuration (flags, breakpoints, MCR Arc, mappings, devices) is kept.",
+    text="Histories of runs, steps, writes, flag flips, breakpoint edits, device attach/remove and internal-register mappings/unmappings (including the default PSR/MCR ports) followed by reset: state equals Simulator::new(same flags) word for word (values and masks), configuration (flags, breakpoints, MCR Arc, exactly the history's set of mappings, devices) is kept.",
     note="Deterministic strategies only (Known, Seeded), as the property states.",
     ref="4/C30"),
  "C31": dict(
     technique="property-based twin-run testing (two independently built simulators per configuration) plus a Known-fill invariant",
-    text="Same program, seed and seeded timer on two simulators: per-step traces (PC, PSR, registers, counts, digest of all memory incl. init masks every 64 steps, output) must be identical; Known{v} fills every register and every word outside OS image and I/O page with v.",
+    text="Same program, seed and seeded timer on two simulators: per-step traces (PC, PSR, registers, counts, digest of all memory incl. init masks every 64 steps, output) must be identical, also when the history continues with (reset and) loading an object file with reserved words over the used machine and more steps; Known{v} fills every register and every word outside OS image and I/O page with v.",
     note="OS image addresses are recognised as words that do not depend on the fill value.",
     ref="4/C31"),
  "C32": dict(
@@ -118,12 +118,12 @@ CLAIMED = {
     ref="4/C32"),
  "C33": dict(
     technique="bounded-exhaustive and random schedule enumeration with the lock schedule owned by the checking thread",
-    text="The harness holds the keyboard/display buffer lock during chosen steps of echo programs (all single and pairs of single-step holds for short inputs, random multi-step holds for long ones); every input byte must be received and every output byte displayed exactly once, in order. Holds covering the data access right after a ready poll are a listed known finding and excluded while listed.",
+    text="The harness holds the keyboard/display buffer lock during chosen steps of echo programs (all single and pairs of single-step holds for short inputs, random multi-step holds for long ones); every input byte must be received and every output byte displayed exactly once, in order. Holds covering the data access within the OS's window (<= 4 instructions) after a ready poll that found the lock free are a listed known finding and excluded while listed.",
     note="Known finding C33/hold-on-data-access-after-ready-poll; real thread interleavings inside one try_write are not explored (they cannot change a try_* outcome beyond success/failure).",
     ref="4/C33, 6"),
  "C34": dict(
     technique="property-based testing of TimerDevice poll sequences against interval arithmetic, directly and inside a simulator",
-    text="Exact counts and ranges, seeds, enable/disable toggles and resets over long poll sequences: gaps within the range, first fire at most max+1 polls after enable/reset, disabled never fires, equal seeds equal sequences; one poll per simulator step (recording wrapper).",
+    text="Exact counts and ranges, seeds, enable/disable toggles, resets and range changes (each followed by a restart, half of them while disabled) over long poll sequences: gaps within the range, first fire at most max+1 polls after enable/reset, disabled never fires, equal seeds equal sequences; one poll per simulator step (recording wrapper).",
     note="Ranges containing 0 are outside the property's domain.",
     ref="4/C34"),
  "C17": dict(
@@ -143,12 +143,12 @@ CLAIMED = {
     ref="4/C19"),
  "C20": dict(
     technique="model-based property testing: all link orders and bracketings of generated file sets against a set-union link model",
-    text="2-4 generated files with shared/conflicting/external labels and touching/overlapping blocks are linked in every order and bracketing (2/12/120 trees); success, image, labels, external flags and pending relocations (observed by linking a probe definer) must equal the model for every tree.",
+    text="2-4 generated files with shared/conflicting/external labels and touching/overlapping blocks (address grid based at x0000, x3000 or xFD00, so that address 0 is a definition address) are linked in every order and bracketing (2/12/120 trees); success, image, labels, external flags and pending relocations (observed by linking a probe definer) must equal the model for every tree.",
     note="Pending relocations are observed behaviourally (probe file), not by parsing a serialization.",
     ref="4/C20"),
  "C21": dict(
     technique="property-based testing of load/link outcomes for files with external uses; known finding excluded by construction",
-    text="Files with .external before/between/after the .fill uses: loading must fail with UnresolvedExternal; after linking a definer in either order the word holds the label address and loading succeeds. The no-debug-symbols variant is a listed known finding (assemble() drops the symbol table) and is excluded while listed; its witness is replayed every run.",
+    text="Files with .external before/between/after the .fill uses: loading must fail with UnresolvedExternal; after linking a definer in either order the word holds the label address and loading succeeds; with a second user file of the same labels, six orders/bracketings of file, user and definer (users linked first must still fail to load; the complete link must hold every address). The no-debug-symbols variant is a listed known finding (assemble() drops the symbol table) and is excluded while listed; its witness is replayed every run.",
     note="Known finding C21/nodebug-external-dropped (API decision needed) - see known_findings.json.",
     ref="4/C21"),
  "C22": dict(
@@ -158,7 +158,7 @@ CLAIMED = {
     ref="4/C22"),
  "C23": dict(
     technique="property-based testing of symbol-table queries against the model label table",
-    text="Generated programs with mixed-case labels, repeated labels, labels on .end and externals; every label is queried in 5 spellings through lookup_label, get_label_source and rev_lookup_label, the listing is compared as a set, absent names/addresses must give None.",
+    text="Generated programs with mixed-case labels, repeated labels, labels on .end and on .external lines inside a block, and externals; every label is queried in 5 spellings through lookup_label, get_label_source and rev_lookup_label, the listing is compared as a set, absent names/addresses must give None.",
     note="ASCII labels only (property scope); a label both declared external and defined at x0000 is not generated (flag unspecified).",
     ref="4/C23"),
  "C24": dict(
@@ -168,7 +168,7 @@ CLAIMED = {
     ref="4/C24"),
  "C25": dict(
     technique="property-based testing of SourceInfo against split-on-newline arithmetic",
-    text="Strings over an alphabet rich in LF/CRLF/CR/whitespace/multi-byte characters; every line index up to count+2 and every character index up to len+10 is queried and compared with an arithmetic model.",
+    text="Strings over an alphabet rich in LF/CRLF/CR/whitespace (space, tab, VT, FF, U+00A0, U+0085, U+2028, U+3000)/multi-byte characters; every line index up to count+2 and every character index up to len+10 is queried and compared with an arithmetic model.",
     note="Whitespace = Rust str::trim semantics (as the property says 'without surrounding whitespace').",
     ref="4/C25"),
  "C26": dict(
